@@ -18,6 +18,8 @@ pub mod c15;
 pub mod c16;
 pub mod c17;
 pub mod c18;
+pub mod c19;
+pub mod c20;
 
 pub fn run(prop: &str, ctx: &mut Ctx) -> bool {
     match prop {
@@ -35,6 +37,8 @@ pub fn run(prop: &str, ctx: &mut Ctx) -> bool {
         "C16" => c16::run(ctx),
         "C17" => c17::run(ctx),
         "C18" => c18::run(ctx),
+        "C19" => c19::run(ctx),
+        "C20" => c20::run(ctx),
         _ => return false,
     }
     true
@@ -56,6 +60,8 @@ pub fn replay(prop: &str, case: &Value) -> Option<Vec<Failure>> {
         "C16" => c16::replay(case),
         "C17" => c17::replay(case),
         "C18" => c18::replay(case),
+        "C19" => c19::replay(case),
+        "C20" => c20::replay(case),
         _ => return None,
     })
 }
